@@ -294,6 +294,7 @@ pub struct PackageBuilder {
 
 impl Aml for PackageBuilder {
     fn to_aml_bytes(&self, sink: &mut dyn AmlSink) {
+        assert!(self.elements <= 255, "Package cannot have more than 255 elements");
         let pkg_length = create_pkg_length(self.data.len() + 1, true);
 
         sink.byte(PACKAGEOP);
